@@ -237,7 +237,8 @@ Definition call_hook (c : ccfg) (parent : json) (observed related : umap) : prog
                    match decode_composite body with
                    | None => Ret HRErr
                    | Some r => Ret (HRResp (mkHR (hr_status r)
-                                       (map (default_ns (get_ns parent)) (hr_children r))
+                                       (map (default_ns (get_ns parent))
+                                            (filter (fun c => match c with Some _ => true | None => false end) (hr_children r)))
                                        (hr_resync r) (hr_finalized r)))
                    end
                | AHook429 n => Ret (HR429 n)
